@@ -11,6 +11,9 @@ sys.path.insert(0, "/verif")
 def main():
     mods, cid, mode = sys.argv[1].split(","), sys.argv[2], sys.argv[3]
     timeout_ms = int(sys.argv[4]) if len(sys.argv) > 4 else 30000
+    only = None
+    if len(sys.argv) > 5 and sys.argv[5] != "-":
+        only = set(json.loads(sys.argv[5]))
     try:
         from pyvc.contract import Registry
         from pyvc.verify import verify_contract
@@ -22,7 +25,7 @@ def main():
         if mode.startswith("refute"):
             parts = mode.split(":")
             refute = {"bound": int(parts[1]), "unroll": int(parts[2]) if len(parts) > 2 else 4}
-        out = verify_contract(c, reg, timeout_ms=timeout_ms, refute=refute)
+        out = verify_contract(c, reg, timeout_ms=timeout_ms, refute=refute, only=only)
         out["assumptions_used"] = sorted(set(stubs.USED) | set(c.assumptions))
         out["inlined"] = sorted(x.id for x in reg.by_id.values() if x.inline)
         out["props"] = c.props
